@@ -53,8 +53,129 @@ func c16Kind(t serf.EventType) string {
 	return "?"
 }
 
+// c16Racing: memberlist reports a member dead on its notification goroutine while the
+// member's own leave intent (or an operator's force-leave) about it is handled on the packet
+// goroutine - two goroutines changing the same member, which the real program does have.
+// Whichever of the two is applied first, the member ends up left and the application must
+// see either [failed, leave] or just [leave]: the last event has to agree with the final status.
+// Real time, no bubble (the point is the scheduler's interleaving of two tiny critical sections).
+func c16Racing(rng *rand.Rand, seq int) (viols []string, stats map[string]int) {
+	stats = map[string]int{}
+	nw := simnet.New(int64(seq))
+	nd, err := cluster.Start(nw, cluster.Opts{Name: fmt.Sprintf("racer-%d", seq), IP: "10.16.0.1", Profile: "passive", Mutate: func(c *serf.Config) {
+		c.ReapInterval = 100 * time.Hour
+	}})
+	if err != nil {
+		return []string{"setup: " + err.Error()}, stats
+	}
+	defer nd.Close()
+	const members = 8
+	for round := 0; round < 40 && len(viols) == 0; round++ {
+		names := make([]string, members)
+		for i := range names {
+			names[i] = fmt.Sprintf("r%d-m%d", round, i)
+			nd.NotifyJoin(cluster.FakeNode(names[i], fmt.Sprintf("10.17.%d.%d", round%250, i+1), 7946, nil))
+		}
+		var start atomic.Bool
+		g := newBGroup()
+		for i := range names {
+			i := i
+			intent := wire.Encode(wire.Leave, &wire.MsgLeave{LTime: uint64(1000 + round), Node: names[i]})
+			fn := cluster.FakeNode(names[i], fmt.Sprintf("10.17.%d.%d", round%250, i+1), 7946, nil)
+			spin := rng.Intn(200)
+			first := rng.Intn(2)
+			g.Go(func() {
+				for !start.Load() {
+				}
+				if first == 0 {
+					for k := 0; k < spin; k++ {
+						_ = start.Load()
+					}
+				}
+				nd.NotifyLeave(fn) // notifications stay serialised among themselves, as memberlist does
+			})
+			g.Go(func() {
+				for !start.Load() {
+				}
+				if first == 1 {
+					for k := 0; k < spin; k++ {
+						_ = start.Load()
+					}
+				}
+				nd.NotifyMsg(intent)
+			})
+		}
+		start.Store(true)
+		g.Wait()
+		// a marker travels through the same event pipeline after everything the handlers sent:
+		// once it is logged, every event of this round is logged (FIFO all the way)
+		marker := fmt.Sprintf("marker-%d-%d", seq, round)
+		if err := nd.S.UserEvent(marker, nil, false); err != nil {
+			return []string{"setup: marker event: " + err.Error()}, stats
+		}
+		deadline := time.Now().Add(60 * time.Second)
+		for {
+			got := map[string][]string{}
+			seen := false
+			for _, le := range nd.Events() {
+				switch e := le.E.(type) {
+				case serf.MemberEvent:
+					for _, m := range e.Members {
+						if strings.HasPrefix(m.Name, fmt.Sprintf("r%d-", round)) && e.Type != serf.EventMemberJoin {
+							got[m.Name] = append(got[m.Name], c16Kind(e.Type))
+						}
+					}
+				case serf.UserEvent:
+					if e.Name == marker {
+						seen = true
+					}
+				}
+			}
+			if !seen {
+				if time.Now().After(deadline) {
+					stats["racing_watchdog"]++
+					return viols, stats
+				}
+				time.Sleep(200 * time.Microsecond)
+				continue
+			}
+			status := map[string]serf.MemberStatus{}
+			for _, m := range nd.S.Members() {
+				status[m.Name] = m.Status
+			}
+			for _, n := range names {
+				stats["racing_pairs"]++
+				seqs := strings.Join(got[n], ",")
+				stats["racing_sequence_"+seqs]++
+				if status[n] != serf.StatusLeft {
+					viols = append(viols, fmt.Sprintf("member %s: dead notification and leave intent handled concurrently, final status %v (events %v)", n, status[n], got[n]))
+				} else if seqs != "leave" && seqs != "failed,leave" {
+					viols = append(viols, fmt.Sprintf("member %s: dead notification and leave intent handled concurrently: the application saw %v while the member is %v (the last event must be the leave)", n, got[n], status[n]))
+				}
+			}
+			break
+		}
+	}
+	return
+}
+
 func TestC16(t *testing.T) {
 	r := evid.Start(t, "C16", "exploration")
+	if os.Getenv("VERIF_PHASE") != "race" {
+		r.Cases("racing", r.N(24, 600), 3, func(ci int, rng *rand.Rand) {
+			viols, stats := c16Racing(rng, ci)
+			r.Eval(1)
+			for k, v := range stats {
+				r.Count(k, v)
+			}
+			if stats["racing_watchdog"] > 0 {
+				r.Inconclusive("racing phase: marker event not seen within 60 s (watchdog)")
+			}
+			for _, v := range viols {
+				r.Violation("racing-notification-and-intent", ci, v, v)
+			}
+		})
+	}
 	n := r.N(3000, 60000)
 	if os.Getenv("VERIF_PHASE") == "race" {
 		n = r.N(200, 3000)
